@@ -73,6 +73,15 @@ type Contract struct {
 	Where      string
 	ResultNames []string
 	Uses       []*Clause // lemma instantiations: "use lemmaName(args)" evaluated at entry
+	Cuts       []*Cut    // intermediate assertions anchored on a source statement: after "<stmt text>" assert[label] expr
+}
+
+// Cut: an intermediate assertion. It is an obligation where it stands and an assumption for what follows (the usual
+// role of an assert statement), placed after the last instruction of the source line whose trimmed text is Anchor.
+type Cut struct {
+	Anchor string
+	Cl     *Clause
+	Hard   bool // "cut" instead of "assert": what follows is proved from the entry facts and this assertion only
 }
 
 func (c *Contract) ModifiesNothing() bool { return len(c.Modifies) == 0 && !c.ModifiesAll }
@@ -101,7 +110,8 @@ func clauseTexts(cs []*Clause) string {
 	return strings.Join(ts, ", ")
 }
 
-var clauseRe = regexp.MustCompile(`^(requires|ensures|invariant|modifies|decreases|let|loop|split|trusted|inline|pure|noalloc|retains|use|results)\b(\[[^\]]*\])?\s*(.*)$`)
+var clauseRe = regexp.MustCompile(`^(requires|ensures|invariant|modifies|decreases|let|loop|split|trusted|inline|pure|noalloc|retains|use|results|after)\b(\[[^\]]*\])?\s*(.*)$`)
+var afterRe = regexp.MustCompile("^`([^`]*)`\\s+(assert|cut)(\\[[^\\]]*\\])?\\s+(.*)$")
 
 // parseContractFile reads //@ blocks from a file. pkgName qualifies unqualified keys.
 var macros = map[string]*Macro{} // key: pkgPath + "." + name
@@ -189,6 +199,14 @@ func parseContractFile(path, pkgName, pkgPath string) ([]*Contract, error) {
 			cur.Decreases = append(cur.Decreases, mk())
 		case "use":
 			cur.Uses = append(cur.Uses, mk())
+		case "after":
+			am := afterRe.FindStringSubmatch(strings.TrimSpace(rest))
+			if am == nil {
+				return nil, fmt.Errorf("%s: after `<statement text>` assert[label] <expr>", where)
+			}
+			c := &Clause{Label: strings.Trim(am[3], "[]"), Text: am[4], Where: where}
+			last = c
+			cur.Cuts = append(cur.Cuts, &Cut{Anchor: strings.TrimSpace(am[1]), Cl: c, Hard: am[2] == "cut"})
 		case "let":
 			i := strings.Index(rest, "=")
 			if i < 0 {
@@ -272,6 +290,9 @@ func parseContractFile(path, pkgName, pkgPath string) ([]*Contract, error) {
 		all := [][]*Clause{c.Requires, c.Ensures, c.Modifies, c.Decreases, c.Lets, c.Uses}
 		for _, ls := range c.Loops {
 			all = append(all, ls.Invariants, ls.Decreases, ls.Lets)
+		}
+		for _, ct := range c.Cuts {
+			all = append(all, []*Clause{ct.Cl})
 		}
 		for _, list := range all {
 			for _, cl := range list {
